@@ -13,8 +13,9 @@
 From TU Require Import Base.
 Open Scope N_scope.
 
-Definition bytes := list byte.
-Definition table := list bytes.
+(** notations, not definitions: no constant to unfold in proofs *)
+Notation bytes := (list N) (only parsing).
+Notation table := (list (list N)) (only parsing).
 
 (** ** Merge table lookup: [self.state.0.get(&merged)] *)
 Fixpoint lookup_from (tbl : table) (k : N) (b : bytes) : option N :=
@@ -308,6 +309,10 @@ Definition tok_bytes (tbl : table) (id : N) : bytes :=
   if id <? 256 then [id] else nth (N.to_nat (id - 256)) tbl [].
 Definition bpe_decode (tbl : table) (ids : list N) : bytes :=
   flat_map (fun id => if id <? 256 + N.of_nat (length tbl) then tok_bytes tbl id else []) ids.
+
+(** premise of the theorems: the text consists of Unicode scalar values (so that every
+    UTF-8 byte is below 256); a Rust [&str] always does *)
+Definition valid_cp (c : N) : Prop := c < 1114112.
 
 (** ** val glue shared by C02 / C03 *)
 Definition v_bytes (v : val) : bytes := v_list v_n v.
